@@ -169,7 +169,8 @@ def run(ctx):
     dom = g.dominators()
     # On every path to an accepting return the last writer of the field is either the
     # explicit parse or the default constant; when both occur the explicit parse is last.
-    calls = [x for x in walk(f) if x.get('kind') == 'CallExpr' and callee(x) and callee(x)[0] == 'fn' and
+    calls = [x for (u2_, f2_) in ctx.scope(f) if f2_ is not G.defs[G.one('cctz::ParseDateTime')][1]
+             for x in walk(f2_) if x.get('kind') == 'CallExpr' and callee(x) and callee(x)[0] == 'fn' and
              callee(x)[1].get('name') == 'ParseOffset']
     kd = G.one('cctz::ParseDateTime')
     ud, fd = G.defs[kd]
@@ -180,6 +181,13 @@ def run(ctx):
              'dst_offset is the explicit offset, else std_offset + 1h', 'default:dst_offset'),
             (fd, ud, '.time.offset', lambda k_: k_ == 'n:7200',
              'rule time is the explicit /time, else 02:00:00', 'default:time')):
+        if fn_ is f:
+            # the driver may have been split: analyse the part (file-local helper) that writes the field
+            for (u2_, f2_) in ctx.scope(f):
+                if any(x_.get('kind') == 'BinaryOperator' and x_.get('opcode') == '=' and Keys(u2_).key(kids(x_)[0]).endswith(suffix)
+                       for x_ in walk(f2_)):
+                    fn_, un_ = f2_, u2_
+                    break
         Kx = Keys(un_)
         gx = ctx.cfg(fn_)
         acc_nodes = [rn for rn in gx.returns if Kx.key(kids(rn.ast)[0]) not in ('n:0', 'null')]
@@ -200,7 +208,7 @@ def run(ctx):
                     elif x.get('kind') == 'CallExpr' and callee(x) and callee(x)[0] == 'fn' and \
                             callee(x)[1].get('name') == 'ParseOffset' and Kx.key(call_args(x)[-1]).endswith(suffix + ')'):
                         events.append(('explicit', x))
-            if fn_ is f and not any(Kx.key(call_args(c_)[-1]).endswith('dst_start)') for nd in path if nd.ast is not None
+            if construct == 'default:dst_offset' and not any(Kx.key(call_args(c_)[-1]).endswith('dst_start)') for nd in path if nd.ast is not None
                                     for c_ in walk(nd.ast) if c_.get('kind') == 'CallExpr' and callee(c_) and callee(c_)[0] == 'fn'
                                     and callee(c_)[1].get('name') == 'ParseDateTime'):
                 continue      # standard-time-only acceptance: the field is not part of the result
@@ -233,17 +241,18 @@ def run(ctx):
     n_acc = 0
     for rn in g.returns:
         e = kids(rn.ast)[0]
-        k_ = F.keys.key(e)
-        if k_ == 'n:0':
+        cases = [(fs, val) for (fs, val) in F.return_cases(rn) if val is not False and val != 'n:0']
+        if not cases:
             continue
         n_acc += 1
+        # every way this return can yield true has the cursor at the NUL (tests written here, or implied by a
+        # file-local helper the decision is delegated to)
+        at_end = all(val is True and any(op == '==' and 'n:0' in (a, b) and re.match(r'^\*\(\w+#0x[0-9a-f]+\)$', a if b == 'n:0' else b)
+                                         for (op, a, b) in fs) for (fs, val) in cases)
         conj = _conjuncts(e)
-        at_end = any(_is_nul_test(F, c) for c in conj) or any(
-            op == '==' and 'n:0' in (a, b) and re.match(r'^\*\(\w+#0x[0-9a-f]+\)$', a if b == 'n:0' else b)
-            for (op, a, b) in F.facts_at(rn))
         ctx.check(at_end, 'C16-end', 'accepting return requires the cursor at the terminating NUL', rn.ast,
                   'ParsePosixSpec can return true with input left over: trailing bytes after a complete rule are accepted',
-                  construct='end:%s' % ('final' if len(conj) > 1 else 'stdonly'))
+                  construct='end:%s' % ('final' if len(conj) > 1 or peel(e).get('kind') == 'CallExpr' else 'stdonly'))
     ctx.check(n_acc >= 2, 'C16-end', 'two accepting returns (standard-only and with rule)', f, 'found %d' % n_acc, construct='end:count')
     colon = [rn for rn in g.returns if F.keys.key(kids(rn.ast)[0]) == 'n:0' and
              any(op == '==' and 'n:58' in (a, b) for (op, a, b) in F.facts_at(rn))]
@@ -262,7 +271,10 @@ def run(ctx):
         kind = set()
         for (now, ever) in hp:
             quoted = any(op == '==' and 'n:60' in (a, b) for (op, a, b) in ever)
-            longen = any((op == '<=' and a == 'n:3' and ' - ' in b) or (op == '<' and a == 'n:2' and ' - ' in b) for (op, a, b) in now)
+            def _is_len(b_):
+                rb = Fa.resolve_key(b_)
+                return ' - ' in rb or rb.startswith('strcspn(') or rb.startswith('strspn(') or '.size()' in rb or '.length()' in rb
+            longen = any((op == '<=' and a == 'n:3' and _is_len(b)) or (op == '<' and a == 'n:2' and _is_len(b)) for (op, a, b) in now)
             kind.add('quoted' if quoted else 'plain')
             okall = okall and (quoted or longen)
         ctx.check(okall, 'C16-end', 'abbreviation is <...> or at least three characters', rn.ast,
@@ -279,7 +291,8 @@ def run(ctx):
 
     # ---- C16-lex: the scanner sees every byte itself
     reach = G.reachable([G.one('cctz::ParsePosixSpec')])
-    ALLOW = {'strchr', 'max', 'min', 'std-method:assign', 'std-method:c_str', 'std-method:data', 'std-method:size',
+    ALLOW = {'strchr', 'strcspn', 'strspn', 'strpbrk', 'memchr', 'strlen',      # byte-set scans: no locale, no sign, no radix
+             'max', 'min', 'std-method:assign', 'std-method:c_str', 'std-method:data', 'std-method:size',
              'std-method:length', 'std-method:empty', 'std-method:push_back', 'std-method:append', 'std-method:clear'}
     n_ext = 0
     for kk in sorted(reach):
